@@ -204,6 +204,12 @@ def run(idx, rep, tier):
     from . import c08
     c08.copies(idx, rep, "R6")
     c08.byline(idx, rep, "R6", "R6", tier, scenarios=("stops_a", "stops_b"), aspects=("schedule",))
+    # line numbers are positions of CSV *records*: every reader on a run path parses with the run's dialect (a dropped quotechar splits
+    # records), the up-front count that '*' / 'N*' end at advances once per record, and a cached count belongs to that very file
+    from . import c06, c19
+    c06.r1(idx, K.as_rule(rep, "R6"))
+    c06.r5(idx, K.as_rule(rep, "R6", keep=lambda k: "LineCounter" in k))
+    c19.r2(idx, K.as_rule(rep, "R6", keep=lambda k: "_cache_name" in k or "cache entries are tied" in k or "partial cache" in k))
     rep.stats["exhaustive"] = True
 
 
